@@ -533,6 +533,8 @@ func init() {
 		checkParserOptionCallers(r, prog, "c10")
 		r.importing = "C18"
 		checkGetOpts(r, prog, a, "c18") // no budget unless one is asked for: CreateEvaluator accepts what grammar.Parse accepts
+		r.importing = "C17"
+		checkFilter(r, prog, a, "c17") // what CreateFilter hands back can be executed: the nil filter of the empty expression too
 		r.importing = ""
 		if ga != nil {
 			checkWellFormed(r, ga, "c10")
